@@ -463,11 +463,17 @@ def run_expand_stream(ctx, prop, n, text_only=False):
                     break
                 continue
             break
-        cases.append((elem_text(e), cfg, {'want': expand_expected(e, cfg)}))
+        cases.append((elem_text(e), cfg, {'want': expand_expected(e, cfg), 'name': e['name'],
+                                          'text': e['text'][1] if e.get('text') is not None else ''}))
 
     def oracle(abbr, cfg, meta, r):
+        if text_only:
+            # C04 speaks about the text only: it must stand, verbatim, between the open tag and the closing tag
+            ok = r[0] == 'ok' and r[1].startswith('<' + meta['name']) and \
+                r[1].endswith('>%s</%s>' % (meta['text'], meta['name']))
+            return None if ok else 'output %r, the written statement gives \u27eawant\u27eb%s' % (r, json.dumps(meta))
         if r != ('ok', meta['want']):
-            return 'output %r, the written mentions give <<%s>>' % (r, json.dumps(meta['want']))
+            return 'output %r, the written mentions give \u27eawant\u27eb%s' % (r, json.dumps(meta['want']))
         return None
     model = ctx.model('markup')
     run_cases(ctx, model, cases, prop + 'expand', oracle, mode='expand')
@@ -480,8 +486,13 @@ def replay_expand(rp):
     from markup_util import impl_expand
     r = impl_expand(rp['abbr'], rp['config'])
     why = rp.get('why', '')
-    want = json.loads(why[why.index('<<') + 2:why.rindex('>>')])
-    bad = r != ('ok', want)
+    want = json.loads(why.rsplit('\u27eawant\u27eb', 1)[1])
+    bad = not isinstance(want, dict) and r != ('ok', want)
+    if isinstance(want, dict):
+        # C04: only the text between the tags is claimed
+        bad = not (r[0] == 'ok' and r[1].startswith('<' + want['name']) and
+                   r[1].endswith('>%s</%s>' % (want['text'], want['name'])))
+        want = want['want']
     print('expand(%r, %r) -> %r\nproperty oracle (merged mentions through the output table give %r): %s'
           % (rp['abbr'], rp['config'], r, want, 'FAILS' if bad else 'holds'))
     return 1 if bad else 0
@@ -653,7 +664,7 @@ def run_stmt_expand_stream(ctx, prop, n):
 
     def oracle(abbr, cfg, meta, r):
         if r != ('ok', meta['want']):
-            return 'output %r, the written statement gives <<%s>>' % (r, json.dumps(meta['want']))
+            return 'output %r, the written statement gives \u27eawant\u27eb%s' % (r, json.dumps(meta['want']))
         return None
     model = ctx.model('markup')
     run_cases(ctx, model, cases, prop + 'stmtexpand', oracle, mode='expand')
